@@ -511,55 +511,9 @@ func init() {
 		}
 		tc := run.Rule("TYPE-clone", "types copied by value on Clone/BuildRng are plain data (no shared references)", 2)
 		checkCloneTypes(p, tc)
-		// Keccak: Go implementation vs the dependency's
+		checkKeccakSibling(c, run)
 		pg := c.Prog("purego")
 		run.SetConfig("purego")
-		kk := run.Rule("SIB-keccak", "the Go Keccak-f[1600] of internal/strobe is structurally equal to golang.org/x/crypto/sha3's (same role, independently tested)", 1)
-		mine := pg.Func("internal/strobe", "keccakF1600")
-		var theirs = (*ssaFunction)(nil)
-		if xp := pg.All["golang.org/x/crypto/sha3"]; xp != nil && pg.SSA != nil {
-			if sp := pg.SSA.Package(xp.Types); sp != nil {
-				theirs = sp.Func("keccakF1600")
-			}
-		}
-		switch {
-		case mine == nil || len(mine.Blocks) == 0:
-			kk.Fail("-", "internal/strobe.keccakF1600", "Go Keccak not found in the purego configuration (anchor lost)", nil)
-		case theirs == nil || len(theirs.Blocks) == 0:
-			kk.Fail("-", "golang.org/x/crypto/sha3.keccakF1600", "the dependency's pure-Go permutation is not part of this configuration: sibling unavailable", nil)
-		default:
-			tab := egvn.NewTable()
-			rcMine, err1 := constTable(pg.Pkg("internal/strobe"), "rc")
-			rcTheirs, err2 := constTable(pg.All["golang.org/x/crypto/sha3"], "rc")
-			var outA, outB []*egvn.Node
-			var errA, errB error
-			if err1 == nil && err2 == nil {
-				outA, errA = egvn.Eval(tab, mine, 25, map[string][]uint64{"rc": rcMine}, 200000)
-				outB, errB = egvn.Eval(tab, theirs, 25, map[string][]uint64{"rc": rcTheirs}, 200000)
-			}
-			switch {
-			case err1 != nil || err2 != nil:
-				kk.Fail(pg.Pos(mine.Pos()), "internal/strobe.keccakF1600", fmt.Sprintf("round-constant table cannot be read: %v %v", err1, err2), nil)
-			case errA != nil:
-				kk.Fail(pg.Pos(mine.Pos()), "internal/strobe.keccakF1600", "value numbering cannot follow the routine: "+errA.Error(), nil)
-			case errB != nil:
-				kk.Fail(pg.Pos(mine.Pos()), "internal/strobe.keccakF1600", "value numbering cannot follow the reference routine: "+errB.Error(), nil)
-			default:
-				bad := -1
-				for i := range outA {
-					if outA[i] != outB[i] {
-						bad = i
-						break
-					}
-				}
-				if bad >= 0 {
-					kk.Fail(pg.Pos(mine.Pos()), "internal/strobe.keccakF1600", fmt.Sprintf("state word %d after the 24 rounds is a different function of the input state than in golang.org/x/crypto/sha3.keccakF1600: %s vs %s", bad, egvn.Describe(outA[bad], 3), egvn.Describe(outB[bad], 3)), nil)
-				} else {
-					kk.OK("internal/strobe.keccakF1600")
-					run.Sample(map[string]any{"keccak sibling": "golang.org/x/crypto/sha3.keccakF1600", "state words compared": len(outA), "expression DAG nodes": tab.Size(), "method": "global value numbering with xor/and/or normal forms and rotation recognition; loop counters concrete, data symbolic"})
-				}
-			}
-		}
 		econst.CheckNamed(run, pg, "CONST", "internal/strobe.rc")
 	}
 }
@@ -607,4 +561,58 @@ func constTable(pk *packages.Package, name string) ([]uint64, error) {
 		}
 	}
 	return nil, fmt.Errorf("%s not found", name)
+}
+
+// checkKeccakSibling: the Go Keccak-f[1600] of internal/strobe against
+// golang.org/x/crypto/sha3's, by global value numbering (purego configuration).
+func checkKeccakSibling(c *Ctx, run *report.Run) {
+	// Keccak: Go implementation vs the dependency's
+	pg := c.Prog("purego")
+	run.SetConfig("purego")
+	kk := run.Rule("SIB-keccak", "the Go Keccak-f[1600] of internal/strobe is structurally equal to golang.org/x/crypto/sha3's (same role, independently tested)", 1)
+	mine := pg.Func("internal/strobe", "keccakF1600")
+	var theirs = (*ssaFunction)(nil)
+	if xp := pg.All["golang.org/x/crypto/sha3"]; xp != nil && pg.SSA != nil {
+		if sp := pg.SSA.Package(xp.Types); sp != nil {
+			theirs = sp.Func("keccakF1600")
+		}
+	}
+	switch {
+	case mine == nil || len(mine.Blocks) == 0:
+		kk.Fail("-", "internal/strobe.keccakF1600", "Go Keccak not found in the purego configuration (anchor lost)", nil)
+	case theirs == nil || len(theirs.Blocks) == 0:
+		kk.Fail("-", "golang.org/x/crypto/sha3.keccakF1600", "the dependency's pure-Go permutation is not part of this configuration: sibling unavailable", nil)
+	default:
+		tab := egvn.NewTable()
+		rcMine, err1 := constTable(pg.Pkg("internal/strobe"), "rc")
+		rcTheirs, err2 := constTable(pg.All["golang.org/x/crypto/sha3"], "rc")
+		var outA, outB []*egvn.Node
+		var errA, errB error
+		if err1 == nil && err2 == nil {
+			outA, errA = egvn.Eval(tab, mine, 25, map[string][]uint64{"rc": rcMine}, 200000)
+			outB, errB = egvn.Eval(tab, theirs, 25, map[string][]uint64{"rc": rcTheirs}, 200000)
+		}
+		switch {
+		case err1 != nil || err2 != nil:
+			kk.Fail(pg.Pos(mine.Pos()), "internal/strobe.keccakF1600", fmt.Sprintf("round-constant table cannot be read: %v %v", err1, err2), nil)
+		case errA != nil:
+			kk.Fail(pg.Pos(mine.Pos()), "internal/strobe.keccakF1600", "value numbering cannot follow the routine: "+errA.Error(), nil)
+		case errB != nil:
+			kk.Fail(pg.Pos(mine.Pos()), "internal/strobe.keccakF1600", "value numbering cannot follow the reference routine: "+errB.Error(), nil)
+		default:
+			bad := -1
+			for i := range outA {
+				if outA[i] != outB[i] {
+					bad = i
+					break
+				}
+			}
+			if bad >= 0 {
+				kk.Fail(pg.Pos(mine.Pos()), "internal/strobe.keccakF1600", fmt.Sprintf("state word %d after the 24 rounds is a different function of the input state than in golang.org/x/crypto/sha3.keccakF1600: %s vs %s", bad, egvn.Describe(outA[bad], 3), egvn.Describe(outB[bad], 3)), nil)
+			} else {
+				kk.OK("internal/strobe.keccakF1600")
+				run.Sample(map[string]any{"keccak sibling": "golang.org/x/crypto/sha3.keccakF1600", "state words compared": len(outA), "expression DAG nodes": tab.Size(), "method": "global value numbering with xor/and/or normal forms and rotation recognition; loop counters concrete, data symbolic"})
+			}
+		}
+	}
 }
